@@ -17,7 +17,7 @@ pub fn def() -> CheckDef {
         bounds_quick: "tables of length <=3 over symbolic codomain sizes 0..=3 (composition: all four combinations of typed/mistyped decided by the solver); scalars a,b,x symbolic in 0..=3; coequalizer: parallel pairs of length <=3 over <=4 points; universal map: q of length <=4 onto <=3 classes",
         bounds_thorough: "lengths <=4, codomains 0..=4, coequalizer over <=5 points",
         jobs,
-        budget_s: (120, 1500),
+        budget_s: (90, 1500),
     }
 }
 
